@@ -13,6 +13,7 @@ CONSTANTS
   MaxWedges = 0
   FixStopCancels = TRUE
   FixStopUnblocks = TRUE
+  FixStopExpiry = TRUE
   FixStopDrains = TRUE
 VIEW view
 INVARIANTS TypeOK AtMostOnce StopNilDrained AckNilDurable AckErrAbsent NeverTwiceVisible
